@@ -3,7 +3,9 @@
 set -u
 name=$1; shift
 pids="$@"
-if [ -z "$pids" ]; then pids=$(echo $name | cut -d- -f1); fi
+# the property whose check decides the change: the one it was written against, unless meta.json names others ("checked_by":
+# the statement broken is that of another property, e.g. a key-repeat table change filed under overrides)
+if [ -z "$pids" ]; then pids=$(python3 -c "import json,sys;m=json.load(open('/verif/seeded/$name/meta.json'));print(' '.join(m.get('checked_by') or ['$name'.split('-')[0]]))" 2>/dev/null || echo $name | cut -d- -f1); fi
 cd /repo
 if ! git diff --quiet; then echo "REPO DIRTY"; exit 2; fi
 P=/verif/seeded/$name/patch.diff
